@@ -155,6 +155,10 @@ func resolveRenamedRoles(p *Prog, rolesPath string) []string {
 		return nil
 	}
 	p.knownMethods = map[string]bool{}
+	p.roleNames = map[string]bool{}
+	for k := range roles {
+		p.roleNames[k] = true
+	}
 	for k := range roles {
 		if strings.HasPrefix(k, "method:") {
 			p.knownMethods[strings.TrimPrefix(k, "method:")] = true
